@@ -10,11 +10,15 @@ structure DState where
   ss : Sess
   maxQ : Nat
 
-/-- the source variant the drivers follow = this repository copy -/
-def current : Cfg := { keepOnNone := true, fix15 := false, expiredDiscards := false, prioDesc := false }
+/-- the source variant the drivers follow = the integrated repository (all four fixes merged) -/
+def current : Cfg := { keepOnNone := true, fix15 := true, expiredDiscards := true, prioDesc := true }
 
-/-- the pinned source (before the C21 fix) -/
-def pinned : Cfg := { keepOnNone := false, fix15 := false, expiredDiscards := false, prioDesc := false }
+/-- the source before the C21 fix (a collected notification is discarded when the action is None) -/
+def pinned : Cfg := { keepOnNone := false, fix15 := true, expiredDiscards := true, prioDesc := true }
+
+/-- the source before the fix of the expiry panic (C22/C26 slice): SubscriptionExpired with a collected
+notification panics -/
+def preExpiryFix : Cfg := { keepOnNone := true, fix15 := false, expiredDiscards := false, prioDesc := false }
 
 def insertEntry (e : Entry) : List Entry → List Entry
   | [] => [e]
